@@ -23,6 +23,8 @@ func (v Violation) Class() string { return v.Property + "/" + v.Rule }
 type Result struct {
 	Violations  []Violation
 	Sig         uint64 // signature of the case, for the distinct count
+	Sigs        []uint64 // engines whose runs contain several cases list one signature per non-trivial case here instead
+	Cases       int      // number of cases in this run (0: the run is one case)
 	Nontrivial  bool
 	Requests    int
 	Steps       int
